@@ -345,6 +345,10 @@ class CallMixin:
                 self.event('ext-call', node, callee=ext_bases[0], args=list(args), kwargs=dict(kwargs), result=recv.obj,
                            via_super=True)
             return ConstV(None)
+        elif isinstance(recv, ext.ParserV):
+            r = ext.parser_method(self, recv, name, list(args), dict(kwargs), node)
+            self.event('method', node, recv=recv, name=name, args=args, kwargs=kwargs, result=r)
+            return r
         elif isinstance(recv, ext.StructV):
             if name == 'pack':
                 r = ext.e_struct_pack(self, [recv.fmt] + list(args), kwargs, node)
@@ -801,6 +805,22 @@ def b_sorted(it, args, kwargs, node):
     return r
 
 
+def b_issubclass(it, args, kwargs, node):
+    """issubclass(C, T) for classes the analysis knows: library classes, python exception classes, tuples of them."""
+    if len(args) != 2:
+        it.note_unknown(node, 'issubclass arity')
+        return UnkV('issubclass')
+    c = it.resolve(args[0])
+    if isinstance(c, ClassV):
+        probe = ExcV(c.ci, [])
+    elif isinstance(c, ExtV) and it.py_exc_class(c.name) is not None:
+        probe = ExcV(it.py_exc_class(c.name), [])
+    else:
+        it.note_unknown(node, f'issubclass of {c!r}')
+        return UnkV('issubclass')
+    return ConstV(bool(it.exc_isinstance(probe, args[1])))
+
+
 def b_isinstance(it, args, kwargs, node):
     v = it.resolve(args[0])
     t = args[1]
@@ -1046,6 +1066,10 @@ def b_open(it, args, kwargs, node):
 
 def b_vars(it, args, kwargs, node):
     v = it.resolve(args[0]) if args else None
+    if isinstance(v, ext.NamespaceV):
+        if v.dict is None:
+            v.dict = ext.parser_namespace(it, v.parser)
+        return v.dict
     d = DictV(open_=True, desc=f'vars({v!r})')
     d.default = lambda it2, key, n, strict: SymV(it2.fresh(f'vars[{it2.py_key(key)!r}]'), 'any', origin=('vars', v, key))
     return d
@@ -1285,7 +1309,7 @@ def b_id(it, args, kwargs, node):
 
 BUILTINS = {
     'len': b_len, 'int': b_int, 'str': b_str, 'bytes': b_bytes, 'format': b_format, 'range': b_range,
-    'sorted': b_sorted, 'isinstance': b_isinstance, 'hasattr': b_hasattr, 'getattr': b_getattr, 'setattr': b_setattr,
+    'sorted': b_sorted, 'isinstance': b_isinstance, 'issubclass': b_issubclass, 'hasattr': b_hasattr, 'getattr': b_getattr, 'setattr': b_setattr,
     'enumerate': b_enumerate, 'zip': b_zip, 'sum': b_sum, 'divmod': b_divmod, 'list': b_list, 'dict': b_dict,
     'tuple': b_tuple, 'print': b_print, 'open': b_open, 'vars': b_vars, 'min': b_minmax('min'),
     'max': b_minmax('max'), 'bool': b_bool, 'slice': b_slice, 'type': b_type, 'hex': b_hex, 'abs': b_abs,
